@@ -63,6 +63,7 @@ type Ctx struct {
 	strLits     map[string]string // Go string constant -> SMT name
 	strOrder    []string
 	boxedBasic  map[int]types.Type // tags of basic types (their interface values are compared by content)
+	strExt      bool               // emit extensionality axioms for short string literals (contract flag `strext`)
 	pendingGone string             // message of a goal clause that could not be stated (attached to the next obligation)
 	ufs         map[string]bool
 	typeTags    map[string]int
@@ -88,6 +89,7 @@ func newCtx() *Ctx {
 		"(declare-fun sbyte (Str (_ BitVec 64)) (_ BitVec 8))",
 		"(declare-const str_empty Str)",
 		"(assert (= (slen str_empty) (_ bv0 64)))",
+		"(assert (forall ((s!q Str)) (! (=> (= (slen s!q) (_ bv0 64)) (= s!q str_empty)) :pattern ((slen s!q)))))",
 		"(declare-fun objtype (Int) Int)",
 		"(declare-fun boxedtag (Int) Bool)",
 		"(assert (not (boxedtag 0)))",
@@ -220,6 +222,15 @@ func (c *Ctx) strLitDecls() []string {
 		}
 		for i := 0; i < lim; i++ {
 			out = append(out, fmt.Sprintf("(assert (= (sbyte %s %s) %s))", n, bv64(int64(i)), bvLitI(int64(s[i]), 8)))
+		}
+		// extensionality for short literals: a string with these bytes IS this literal
+		if len(s) <= 8 && c.strExt {
+			var cs []string
+			cs = append(cs, fmt.Sprintf("(= (slen s!q) %s)", bv64(int64(len(s)))))
+			for i := 0; i < len(s); i++ {
+				cs = append(cs, fmt.Sprintf("(= (sbyte s!q %s) %s)", bv64(int64(i)), bvLitI(int64(s[i]), 8)))
+			}
+			out = append(out, fmt.Sprintf("(assert (forall ((s!q Str)) (! (=> (and %s) (= s!q %s)) :pattern ((slen s!q)))))", strings.Join(cs, " "), n))
 		}
 	}
 	if len(names) > 1 {
